@@ -171,4 +171,24 @@ def readObj (d : Descends) (parts : List Part) (override : Bool) (st : RState) (
 def readInto (d : Descends) (P : Package) (override : Bool) (S : List Obj) (G : Files.St) : RState :=
   P.payload.foldl (readObj d P.parts override) ⟨S, G, []⟩
 
+/-! ### packages with several AAS parts
+
+`write_all_aas_objects` / `write_aas_objects` may be called once per AAS part; the writer's bookkeeping of the supplementary
+parts already written (`_supplementary_part_names`) lives in the writer object, so a file named by File elements of several
+parts is stored once.  The reader goes through the AAS parts one after the other, and inside a part through its submodels,
+handing the receiving container on. -/
+
+/-- the supplementary parts after one writer call per element of `fss` (the File elements of each AAS part) -/
+def collectPartsSeq (d : Descends) (F : Files.St) : List (List FileEl) → List Part → List Part
+  | [], acc => acc
+  | fs :: r, acc => collectPartsSeq d F r (collectParts d F fs acc)
+
+/-- the reader over the File-element lists of several submodels / AAS parts, one after the other -/
+def collectFilesSeq (d : Descends) (parts : List Part) : Files.St → List (List FileEl) → Files.St × List (List FileEl)
+  | G, [] => (G, [])
+  | G, fs :: r =>
+    let (G1, fs') := collectFiles d parts G fs
+    let (G2, r') := collectFilesSeq d parts G1 r
+    (G2, fs' :: r')
+
 end Basyx.Aasx
